@@ -6,7 +6,9 @@ WithSep(o, s) == IF s = "" THEN o ELSE <<o[1], s, o[2], s, o[3]>>
 DateLayouts == { WithSep(o, s) : o \in Orders("YYYY") \cup Orders("YY"), s \in {".", "-", "/", ""} }
 TimeLayouts == { <<"hh", ":", "mm">>, <<"hh", ":", "mm", ":", "ss">>, <<"hh", "mm">>, <<"hh", "%", "mm">> }
 BothLayouts == { <<"YYYY", "-", "MM", "-", "DD", " ", "hh", ":", "mm", ":", "ss">>, <<"DD", ".", "MM", ".", "YY", " ", "hh", ":", "mm">> }
-AllLayouts == DateLayouts \cup TimeLayouts \cup BothLayouts
+\* placeholders that touch: the month directly followed by the minutes, a literal Y after the year
+TouchingLayouts == { <<"MM", "mm">>, <<"YYYY", "MM", "mm">>, <<"DD", "MM", "mm", "ss">>, <<"YYYY", "Y">>, <<"hh", "mm", "MM">> }
+AllLayouts == DateLayouts \cup TimeLayouts \cup BothLayouts \cup TouchingLayouts
 D == {0, 1, 28, 29, 30, 31, 32}
 M == {0, 1, 2, 4, 12, 13}
 Y4 == {1900, 2000, 2019, 2020, 2100}
